@@ -26,6 +26,8 @@ func runC08(c *eng.Ctx) {
 	ruleReaderStartsInsideItsSegment(c)
 	c.Rule("R05.8", "K2")
 	ruleRebuildIndexAcceptsGaps(c)
+	c.Rule("R08.1", "K1")
+	ruleKeylessMessagesAreNotTracked(c)
 	p := c.P
 	// ---- R08.1 retention predicate
 	c.Rule("R08.1", "K1")
